@@ -12,7 +12,15 @@ class ConCtx(CtxBase):
         self.inputs = inputs
         self.missing = []
 
+    def decoy_ctx(self, dcfg):
+        sub = ConCtx(dcfg, self.inputs)
+        sub.prefix = 'decoy.'
+        sub.mute = True
+        sub.missing = self.missing
+        return sub
+
     def _get(self, name, default=0):
+        name = self.prefix + name
         if name in self.inputs:
             return self.inputs[name]
         self.missing.append(name)
@@ -37,6 +45,8 @@ class ConCtx(CtxBase):
             raise AssumeFailed()
 
     def check(self, label, cond):
+        if self.mute:
+            return True
         self.nchecks += 1
         if not cond:
             self.failures.append(label)
